@@ -701,13 +701,17 @@ func (r *Run) checkSkipCount(all *prog.FuncInfo, lit *ast.FuncLit, loop ast.Stmt
 	})
 	want := map[string]int{"": 1, firstName: -1}
 	var saName string
-	inspect(count, func(nd ast.Node) bool {
-		if sel, ok := nd.(*ast.SelectorExpr); ok && prog.SelField(info, sel) == startAfter {
+	inspect(lit.Body, func(nd ast.Node) bool {
+		if sel, ok := nd.(*ast.SelectorExpr); ok && info.Uses[sel.Sel] == types.Object(startAfter) && lin[types.ExprString(sel)] != 0 {
 			saName = types.ExprString(sel)
 		}
 		return true
 	})
-	want[saName] = 1
+	if saName != "" {
+		want[saName] = 1
+	} else {
+		want["<startAfter>"] = 1
+	}
 	if !sameLinear(lin, want) {
 		r.Fail(all.Name()+":skip-count", loop.Pos(), nil, "the reader must skip exactly (startAfter - firstSeqNum + 1) records; found %s", types.ExprString(count))
 	}
